@@ -4,6 +4,7 @@ import (
 	"fmt"
 
 	"verifharness/front/gen"
+	"verifharness/front/proj"
 )
 
 func nat(n string) gen.TypeExpr {
@@ -121,5 +122,56 @@ func targeted() []*gen.Spec {
 			{Kind: gen.MAnno, Anno: &owner2},
 		}},
 	)
+	// 8. a subscriber written BEFORE the publisher declares the event with attributes: the event's tags and
+	//    name=value attributes must survive, the subscriber's call must be in the event, in source order
+	one(
+		gen.Block{App: []string{"Sub1"}, Members: []gen.Member{
+			{Kind: gen.MSubscribe, App: []string{"Pub"}, Name: "Evt", Attribs: []gen.Entry{{Tag: "sub"}}, Body: []gen.Stmt{act("handle it")}}}},
+		gen.Block{App: []string{"Pub"}, Attribs: []gen.Entry{{Tag: "abstract"}}, Members: []gen.Member{
+			{Kind: gen.MEvent, Name: "Evt", Attribs: []gen.Entry{{Tag: "tag"}, {Name: "k", Val: strAttr("v")}},
+				Params: []gen.Field{{Name: "payload", Ty: nat("string")}}, Body: []gen.Stmt{act("publish it")}},
+			{Kind: gen.MEvent, Name: "Quiet", Attribs: []gen.Entry{{Name: "k2", Val: strAttr("v2")}}}}},
+		gen.Block{App: []string{"Sub2"}, Members: []gen.Member{
+			{Kind: gen.MSubscribe, App: []string{"Pub"}, Name: "Evt", Body: []gen.Stmt{act("second handler")}},
+			{Kind: gen.MSubscribe, App: []string{"Pub"}, Name: "Quiet"}}},
+	)
+	// 9. a literal `+` in return payloads, call endpoints, arguments and action texts (never a blank)
+	one(gen.Block{App: []string{"Plus"}, Members: []gen.Member{
+		{Kind: gen.MEndpoint, Name: "Media", Body: []gen.Stmt{
+			{Kind: gen.KRet, Text: "ok <: application/vnd.api+json"},
+			{Kind: gen.KCall, Target: []string{"Plus"}, Ep: "GET /items?fields=a+b"},
+			{Kind: gen.KCall, Self: true, Ep: "Media", HasArgs: true, Args: []string{"sum a+b", "x <: int"}},
+			{Kind: gen.KIf, Text: "a+b > 1", Body: []gen.Stmt{act("sum a+b now"), {Kind: gen.KRet, Text: "200 <: text/x+y"}}},
+			{Kind: gen.KWhile, Text: "i+1 < n", Body: []gen.Stmt{act("\"quoted + plus\"")}},
+		}},
+		{Kind: gen.MRest, Rest: &gen.RestNode{Segs: []gen.PathSeg{{Static: "items"}}, Children: []gen.RestChild{
+			{Method: &gen.Method{Verb: "GET", Body: []gen.Stmt{{Kind: gen.KRet, Text: "ok <: a+b"}}}}}}},
+	}})
+	// 10. keyword-like names (for.. if.. else.. loop.. alt.. while.. until.. return.. set.. one..) and names that must be
+	//     %-escaped, in every position whose name the compiler unescapes
+	kw := func(n string) gen.TypeExpr { return gen.TypeExpr{Kind: gen.XLocal, Local: n} }
+	one(
+		gen.Block{App: []string{"Formats", "R&D"}, Attribs: []gen.Entry{{Tag: "abstract"}}, Members: []gen.Member{
+			{Kind: gen.MType, Name: "Iffy", Items: []gen.TableItem{{Field: fld("forecast", gen.CNone, nat("int"), false)}, {Field: fld("a&b", gen.CSeq, kw("P&L"), true)},
+				{Field: fld("returned", gen.CSet, kw("Looped"), false)}, {Field: fld("elsewhere", gen.CNone, kw("set of x"), true)}}},
+			{Kind: gen.MTable, Name: "P&L", Items: []gen.TableItem{{Field: &gen.Field{Name: "until_when", Ty: nat("date"), Attribs: []gen.Entry{{Tag: "pk"}}}},
+				{Field: fld("whiled", gen.CNone, gen.TypeExpr{Kind: gen.XRef, RefApp: []string{"Formats", "R&D"}, RefPath: []string{"Iffy", "a&b"}}, false)}}},
+			{Kind: gen.MEnum, Name: "Alt%ernate", Enum: []gen.EnumItem{{Name: "forX", Val: 1}, {Name: "Ifs", Val: 2}}},
+			{Kind: gen.MAlias, Name: "Looped", AliasColl: gen.CSeq, AliasTy: kw("P&L")},
+			{Kind: gen.MType, Name: "set of x", Whatever: true},
+			{Kind: gen.MUnion, Name: "One&Other", Union: []gen.UnionMember{{Ty: kw("Iffy")}, {Coll: gen.CSet, Ty: kw("P&L")}}},
+			{Kind: gen.MEndpoint, Name: "Returns", Params: []gen.Field{{Name: "if&when", Ty: kw("P&L"), Opt: true}, {Name: "format", Ty: nat("string")}},
+				Body: []gen.Stmt{{Kind: gen.KCall, Target: []string{"Formats", "R&D"}, Ep: "Returns"}, {Kind: gen.KCall, Target: []string{"Whiles 100%"}, Ep: "Loopback"}}},
+			{Kind: gen.MMixin, App: []string{"Whiles 100%"}},
+		}},
+		gen.Block{App: []string{"Whiles 100%"}, Attribs: []gen.Entry{{Tag: "abstract"}}, Members: []gen.Member{
+			{Kind: gen.MEndpoint, Name: "Loopback"},
+			{Kind: gen.MType, Name: "Elsewhere", Items: []gen.TableItem{{Field: fld("x", gen.CNone, gen.TypeExpr{Kind: gen.XRef, RefApp: []string{"Formats", "R&D"}, RefPath: []string{"P&L"}}, false)}}},
+			{Kind: gen.MEvent, Name: "Altered"},
+		}},
+		gen.Block{App: []string{"Untilled"}, Members: []gen.Member{{Kind: gen.MSubscribe, App: []string{"Whiles 100%"}, Name: "Altered", Body: []gen.Stmt{act("noted")}}}},
+	)
 	return out
 }
+
+func strAttr(s string) proj.Attr { return proj.Attr{Kind: "s", S: s} }
